@@ -23,6 +23,14 @@ def with_nans(rng, a, stats):
             if c[d] in js: a['flat'][k] = float('nan')
     return a
 
+def with_infs(rng, a, stats):
+    # +inf / -inf are ordinary float data, not missing values: fillna leaves them, dropna does not count them (oracle only: the
+    # model has exact rationals and NaN)
+    if a['dtype'] == 'f' and a['flat'] and rng.random() < 0.2:
+        a['flat'] = [(float('inf') if rng.random() < 0.5 else float('-inf')) if (v == v and rng.random() < 0.3) else v for v in a['flat']]
+        stats['infinite_cells']['yes'] += 1
+    return a
+
 def _iv(v): return int(v) if isinstance(v, (int, float)) and v == v and abs(v) < 1e15 else 0
 
 def generate(rng, n, tier, stats):
@@ -57,7 +65,7 @@ def generate(rng, n, tier, stats):
         elif fam == 'compress_axis':
             cases.append({'ins': [a], 'ops': [['compress_axis', [rng.random() < 0.5 for _ in range(ln)], r]]})
         elif fam == 'dropna':
-            with_nans(rng, a, stats)
+            with_nans(rng, a, stats); with_infs(rng, a, stats)
             slice_size = 1
             for j, l in enumerate(a['labels']):
                 if j != i: slice_size *= len(l)
@@ -65,7 +73,7 @@ def generate(rng, n, tier, stats):
             stats['minvalid']['default' if mv is None else 'zero' if mv == 0 else 'full' if mv == slice_size else 'mid'] += 1
             cases.append({'ins': [a], 'ops': [['dropna', r, mv]]})
         elif fam == 'fillna':
-            with_nans(rng, a, stats)
+            with_nans(rng, a, stats); with_infs(rng, a, stats)
             cases.append({'ins': [a], 'ops': [['fillna', rng.choice([0, -1.5, 7])]]})
         elif fam == 'setna':
             if rng.random() < 0.3:
